@@ -120,6 +120,26 @@ theorem rotVecMatrix_orthogonal (r : V3 ℝ) : (rotVecMatrix r).IsOrthogonal := 
     · linear_combination (0 - vz * vy) * hcs + (vz * vy * (1 - c) ^ 2) * hw
     · linear_combination (1 - vz * vz) * hcs + (s ^ 2 + vz * vz * (1 - c) ^ 2) * hw
 
+/-- ... and proper: determinant +1 (a rotation, not a reflection) -/
+theorem rotVecMatrix_det (r : V3 ℝ) : M3.det (rotVecMatrix r) = 1 := by
+  by_cases hn : V3.norm r = 0
+  · have hr : r = ⟨0, 0, 0⟩ := by
+      obtain ⟨hx, hy, hz⟩ := norm_eq_zero_real hn
+      ext <;> assumption
+    rw [hr, rotVecMatrix_zero]
+    simp [M3.det, M3.one]
+  · have hw := axis_unit hn
+    have hcs := Real.cos_sq_add_sin_sq (V3.norm r)
+    rw [rotVecMatrix_real]
+    generalize axis r = v at hw
+    generalize Real.cos (V3.norm r) = c at hcs
+    generalize Real.sin (V3.norm r) = s at hcs
+    obtain ⟨vx, vy, vz⟩ := v
+    simp only at hw
+    simp only [M3.det]
+    linear_combination (1 + (1 - c) * (vx * vx + vy * vy + vz * vz - 1)) * hcs +
+      ((1 - c) + s ^ 2 + (1 - c) * s ^ 2 * (vx * vx + vy * vy + vz * vz - 1)) * hw
+
 theorem fromRotVec_rigid (r t : V3 ℝ) : (Pose.fromRotVec r t).IsRigid := rotVecMatrix_orthogonal r
 
 /-! ## the vectorised projection equals the projection defined by the types -/
